@@ -42,27 +42,7 @@ class RDom(alg.Alg):
         return True
 
 
-def sqrt_zero(e):
-    """e == 0 modulo the relations S^2 = radicand for every square-root atom S (polynomial remainder)"""
-    e = sp.sympify(e)
-    if alg.is_zero(e):
-        return True
-    roots = sorted([a for a in e.atoms(sp.Pow) if a.exp == sp.Rational(1, 2) or a.exp == sp.Rational(-1, 2)], key=lambda a: -len(str(a)))
-    rad = {}
-    for a in roots:
-        rad.setdefault(a.base, sp.Symbol('S%d' % len(rad), positive=True))
-    sub = {}
-    for a in roots:
-        sub[a] = rad[a.base] if a.exp > 0 else 1 / rad[a.base]
-    t = sp.cancel(sp.together(e.subs(sub)))
-    n = sp.expand(sp.numer(t))
-    for base, S in rad.items():
-        n = sp.rem(sp.Poly(n, S), sp.Poly(S ** 2 - base, S)).as_expr() if n.has(S) else n
-        n = sp.expand(n)
-    if n == 0:
-        return True
-    n = sp.expand(sp.numer(sp.cancel(sp.together(n))))
-    return n == 0
+sqrt_zero = alg.sqrt_zero
 
 
 def run(ctx):
